@@ -36,9 +36,9 @@ theorem C10_descendants_first {s : State} (h : sys.Reach s) (p d : Nat) (hs : s.
 
 /-- Every registration is recorded: the step that appends a child to `children` also puts it in `everChild`. -/
 theorem C10_registration_recorded {s s' : State} {t c : Nat} {l : Label} (hph : s.phase t = .running)
-    (hc : s.call t = .spawn c) (hnc : c ∉ s.children t) (hs : step s t = some (s', l)) :
+    (hc : s.call t = .spawn c) (hnc : c ∉ s.children t) (hno : s.orphan c = false) (hs : step s t = some (s', l)) :
     l = .reg c t ∧ c ∈ s'.everChild t ∧ c ∈ s'.children t := by
-  unfold step at hs; rw [hph] at hs; simp only [hc, hnc, if_false] at hs
+  unfold step at hs; rw [hph] at hs; simp only [hc, hnc, hno, false_or, Bool.false_eq_true, if_false] at hs
   cases hs; simp [upd]
 
 /-- A child is unregistered (by join) only after it has stopped; so while a thread is not stopped it is
